@@ -6,6 +6,7 @@ import (
 	"errors"
 	"fmt"
 	"io"
+	"os"
 	"sync/atomic"
 	"time"
 
@@ -74,7 +75,10 @@ type Pt struct {
 }
 
 func init() { //nolint:gochecknoinits
-	cache.GobRegister(Pt{})
+	// VERIF_NOGOBREG: a process whose types hash stays zero (C14: exporter without registered types).
+	if os.Getenv("VERIF_NOGOBREG") == "" {
+		cache.GobRegister(Pt{})
+	}
 }
 
 func encAny(v string) interface{} {
